@@ -46,6 +46,12 @@ var commonAssumptions = []string{
 
 func init() {
 	register(&Def{
+		ID: "C10", Level: "exploration", MinSigs: 60,
+		Rule:        "the Msg RPC surface is enumerated at run time from the protobuf registry (every method of every service named Msg in a noble.orbiter.* package; signer field from cosmos.msg.v1.signer), so new RPCs are included; each RPC x 13 impostor signer classes (users, module accounts, empty, garbage, other HRP, padded/truncated/hex authority; upper-case authority = EITHER) x {hand-written valid body executed in the state where it is valid, reflection-filled random bodies} through the application's MsgServiceRouter: must return an error, leave the digest of all 13 KV stores unchanged and emit no event; the valid bodies signed by the authority must succeed (incl. ReplaceDepositForBurn with a real deposit and a harness-signed attestation); plus impostor- and authority-signed transactions through FinalizeBlock. distinct = (rpc, signer class, body kind, outcome)",
+		Assumptions: append([]string{"for an RPC added later only random bodies exist, so 'succeeds for the authority' is checked for the 8 known message types only"}, commonAssumptions...),
+		Run:         withLab(world.Config{}, CheckC10),
+	})
+	register(&Def{
 		ID: "C08", Level: "exploration", MinSigs: 40,
 		Rule:        "random walks (50-150 messages) over PauseProtocol/UnpauseProtocol/PauseCrossChains/UnpauseCrossChains with valid, redundant, malformed, unauthorized variants, batches of 0..101 ids with duplicates and already-paused members; after EVERY message the four forwarder queries (every page size), the point queries and the exported genesis are compared with the model sets, and a failed message must leave the orbiter store digest unchanged; every 6 messages one probe transfer per calibrated (protocol, counterparty) on a discarded branch: executed iff neither the protocol nor the pair is paused, refused probes leave no ledger/statistics effect. Mode H walks plus a mode T walk (each message in its own signed transaction). non-trivial = every message and probe; distinct = (message kind, expectation, reason, batch size) and (destination, paused?, outcome) tuples",
 		Assumptions: append([]string{"an empty counterparty batch is treated as EITHER (the statement does not define it); the model resyncs from the queries", "counterparty ids in the walks are canonical or clearly invalid; non-canonical numeric spellings are C20's subject"}, commonAssumptions...),
